@@ -16,6 +16,9 @@ pub mod iso7816 {
 }
 pub use crate::heapless_bytes::Bytes;
 
+// type invariants of the containers (assumed, see inc/heapless_contract.rs)
+broadcast use {crate::heapless_bytes::Bytes::len_le_capacity, crate::heapless::Vec::len_le_capacity};
+
 //@include inc/int_bytes_contract.rs
 
 pub mod authenticate {
@@ -49,20 +52,7 @@ pub open spec fn u2f_layout(resp: Response) -> Seq<u8> {
     }
 }
 
-/// type invariant of the response parts (guaranteed by the real `Bytes<N>` capacities)
-pub open spec fn well_formed(resp: Response) -> bool {
-    match resp {
-        Response::Register(reg) => reg.public_key@.len() <= 65 && reg.key_handle@.len() <= 255
-            && reg.attestation_certificate@.len() <= 1024 && reg.signature@.len() <= 72,
-        Response::Authenticate(auth) => auth.signature@.len() <= 72,
-        Response::Version(_) => true,
-    }
-}
-
 /*@contract serialize
-        requires
-            old(buf)@.len() <= S,
-            well_formed(*self),
         ensures
             // what the buffer already held is never disturbed, success or not
             final(buf)@.len() >= old(buf)@.len(),
@@ -72,6 +62,8 @@ pub open spec fn well_formed(resp: Response) -> bool {
             // on success exactly the raw message is appended: appended length == sum of the parts
             r is Ok ==> final(buf)@ == old(buf)@ + u2f_layout(*self),
             final(buf)@.len() <= S,
+            // the one-byte key-handle length field is the length itself (nothing wraps)
+            (r is Ok && *self is Register) ==> (*self)->Register_0.key_handle@.len() <= 255,
 @*/
 //@extract src/ctap1.rs :: ^impl Response \{ :: contracts=serialize :: desugar-refpat :: int-bytes
 
